@@ -149,6 +149,12 @@ func NewPositionRange(lines []string, val *yaml.Node, minColumn int) (offsets Po
 	}
 
 END:
+	if len(offsets) == 0 {
+		// The value is not spelled by the source text (it uses escape sequences), point at the node itself.
+		return PositionRanges{
+			{Line: val.Line, FirstColumn: val.Column, LastColumn: val.Column},
+		}
+	}
 	return offsets
 }
 
